@@ -12,7 +12,10 @@ Anything else raises Unsupported (reported as a broken obligation, never silentl
 BYTE-BUILDER MODE (second half of this file, `class ByteBuilder`, table BUILDERS): the fixed-layout box builders
 (`payload.extend_from_slice(&X.to_be_bytes()); ... build_box(b"mdhd", &payload)`) are translated statement by statement
 into `<name>_src : ... -> list N`; the expression parser P runs in TYPED mode there (every integer carries the Rust type
-written in the source; `<<`, narrowing `as` and `to_be_bytes()` take their width from that type, never from the model)."""
+written in the source; `<<`, narrowing `as` and `to_be_bytes()` take their width from that type, never from the model).
+Since the second batch it also covers the sample tables with data-dependent loops (flat_map / fold_left), the container
+boxes up to build_moov_box / build_moov_fmp4 in RECORD MODE (struct parameters are the model's records, table RECORDS)
+and the media segment (trun .. moof + mdat); see the comment block before OPAQUE_FN."""
 import re
 
 
@@ -151,6 +154,10 @@ class P:
         op = self.peek()
         if op in ("<", "<=", ">", ">=", "==", "!="):
             self.eat(); b = self.bitor(ty_of(a))
+            if a[0] == "dyn" and a.info[0] == "sint":
+                if b[0] != "dyn" or b.info != a.info or op not in ("==", "!="):
+                    raise Unsupported("comparison `%s` between %s and %s" % (op, a[1], b[1]))
+                return R("bool", ("(%s =? %s)%%Z" if op == "==" else "(negb (%s =? %s)%%Z)") % (a[1], b[1]))
             x, y = self.n(a), self.n(b)
             return R("bool", {"<": "(%s <? %s)", "<=": "(%s <=? %s)", ">": "(%s <? %s)" , ">=": "(%s <=? %s)",
                               "==": "(%s =? %s)", "!=": "(negb (%s =? %s))"}[op] % ((y, x) if op in (">", ">=") else (x, y)))
@@ -210,7 +217,16 @@ class P:
     def arith(self, op, a, b, T):
         ty = T or ty_of(a) or ty_of(b)
         if self.typed and op in ("+", "-", "*") and not (ty == "usize" and op != "-"):
-            raise Unsupported("`%s` on %s may overflow: not supported in a byte builder" % (op, ty or "an untyped integer"))
+            if ty not in INT_BITS or MARK in a[1] or MARK in b[1]:
+                raise Unsupported("`%s` on %s may overflow: not supported in a byte builder" % (op, ty or "an untyped integer"))
+            if op == "-":
+                # N subtraction (truncated at 0) is the exact value under the recorded precondition b <= a
+                self.env.add_pre("(%s <=? %s)" % (self.n(b), self.n(a)),
+                                 "precondition (with overflow checks the source panics otherwise; without, it wraps): %s <= %s" % (self.n(b), self.n(a)))
+                return R("num", "(%s - %s)" % (self.n(a), self.n(b)), ty)
+            # the exact (unbounded) value; that it fits the type is a recorded precondition of <name>_src_pre
+            self.env.add_pre("(%s %s %s <=? %d)" % (self.n(a), op, self.n(b), 2 ** INT_BITS[ty] - 1),
+                             "precondition (with overflow checks the source panics otherwise; without, it wraps): %s %s %s fits %s" % (self.n(a), op, self.n(b), ty))
         return R("num", "(%s %s %s)" % (self.n(a), {"+": "+", "-": "-", "*": "*", "/": "/", "%": "mod"}[op], self.n(b)), ty)
 
     def add(self, ex=None):
@@ -227,8 +243,30 @@ class P:
             if self.peek() == "mut":
                 raise Unsupported("&mut borrow")
             return self.unary(ex)                                # a shared borrow denotes the same bytes / value
+        if self.typed and ex is not None:
+            # `E as T`: the type expected of the whole cast says nothing about E; parse the operand without it
+            start, mark, nn = self.i, self.env.pre_mark(), len(self.env.notes)
+            r = self.unary_(ex)
+            if r is not None:
+                return r
+            self.i = start
+            del self.env.notes[nn:]
+            if mark is not None and self.env.pre is not None:
+                del self.env.pre[mark:]
+            return self.unary_(None)
+        return self.unary_(ex)
+
+    def unary_(self, ex):
+        """atom, postfix operations, casts; with an expected type, None when a cast follows (see unary)"""
         a = self.atom(ex)
-        while self.peek() == "." or (self.typed and self.peek() == "[" and a[0] == "bytes"):
+        while self.peek() == "." or (self.typed and self.peek() == "[" and (a[0] == "bytes" or (a[0] == "dyn" and a.info[0] == "list"))):
+            if self.peek() == "[" and a[0] == "dyn":
+                self.eat(); k = self.expr("usize"); self.eat("]")
+                if k[0] != "num" or ty_of(k) != "usize" or MARK in k[1]:
+                    raise Unsupported("index that is not a usize")
+                self.env.add_pre("(%s <? len %s)" % (k[1], a[1]), "precondition (the source panics otherwise): index %s of %s is in bounds" % (k[1], a[1]))
+                a = self.env.wrapv(a.info[1], "(nth (N.to_nat %s) %s %s)" % (k[1], a[1], self.env.default_term(a.info[1])))
+                continue
             if self.eat() == "[":
                 k = self.eat(); self.eat("]")
                 if not (isinstance(k, str) and re.fullmatch(r"\d+", k)):
@@ -246,12 +284,18 @@ class P:
                 raise Unsupported("method .%s" % meth)
             self.eat("("); b = self.expr(); self.eat(")")
             a = R("num", "(%s - %s)" % (self.n(a), self.n(b)))       # N subtraction truncates at 0
+        if self.typed and ex is not None and self.peek() == "as":
+            return None
         while self.peek() == "as":
             self.eat(); ty = self.eat()
             if not self.typed:
                 # only casts that cannot lose bits for the byte-sized operands of the translated expressions
                 if ty not in ("u16", "u32", "u64", "u128", "usize"):
                     raise Unsupported("narrowing or signed cast `as %s`" % ty)
+                continue
+            if ty == "i32" and a[0] == "num" and ty_of(a) in ("u32", "u64", "usize") and MARK not in a[1]:
+                # the low 32 bits read as two's complement (Model/Base.v i32_of_bits)
+                a = R("dyn", "(i32_of_bits (u32 %s))" % a[1], info=("sint", "i32"))
                 continue
             if ty not in INT_BITS:
                 raise Unsupported("cast `as %s`" % (ty,))
@@ -277,6 +321,17 @@ class P:
             if meth not in a.info:
                 raise Unsupported("struct %s has no field %s" % (a[1], meth))
             return a.info[meth]
+        if a[0] == "dyn":
+            return self.env.dyn_method(a, meth, self)
+        if a[0] == "optstr" and meth == "as_deref":      # Option<String> -> Option<&str>: the same bytes
+            self.eat("("); self.eat(")")
+            return a
+        if a[0] == "bytes" and meth in ("as_bytes", "as_str", "iter", "as_slice", "clone", "to_vec"):
+            self.eat("("); self.eat(")")
+            return a
+        if a[0] == "bytes" and meth == "is_empty":
+            self.eat("("); self.eat(")")
+            return R("bool", "(len %s =? 0)" % a[1])
         if a[0] == "optstr":                             # Option<&str> parameter: option (list N), UTF-8 bytes
             if meth != "unwrap_or":
                 raise Unsupported("method .%s on an Option<&str>" % meth)
@@ -313,6 +368,20 @@ class P:
             k = self.eat(); self.eat(")")
             if not (isinstance(k, str) and re.fullmatch(r"\d+", k)):
                 raise Unsupported("non-constant index in .get()")
+            if self.peek(1) == "map":
+                for t in (".", "map", "(", "|"):
+                    self.eat(t)
+                v = self.eat(); self.eat("|")
+                if not isinstance(v, str) or not re.fullmatch(r"[a-z_][A-Za-z_0-9]*", v):
+                    raise Unsupported("closure parameter %r" % (v,))
+                body = self.env.with_bound({v: ("val", R("num", coq_ident(v), "u8"))}, lambda: self.expr())
+                self.eat(")")
+                for t in (".", "unwrap_or", "("):
+                    self.eat(t)
+                d = self.expr(ty_of(body) if body[0] == "num" else None); self.eat(")")
+                if body[0] != d[0] or body[0] not in ("num", "bool") or MARK in body[1] or MARK in d[1]:
+                    raise Unsupported(".get(%s).map(..).unwrap_or(..) of kinds %s / %s" % (k, body[0], d[0]))
+                return R(body[0], "(match nth_error %s %s%%nat with Some %s => %s | None => %s end)" % (a[1], k, coq_ident(v), body[1], d[1]), ty_of(body))
             for t in (".", "copied", "(", ")", ".", "unwrap_or", "("):
                 self.eat(t)
             d = self.expr("u8"); self.eat(")")
@@ -325,6 +394,12 @@ class P:
         if meth == "saturating_sub":
             b = self.expr(ty_of(a)); self.eat(")")
             return R("num", "(%s - %s)" % (self.n(a), self.n(b)), ty_of(a))
+        if meth == "wrapping_sub":
+            b = self.expr(ty_of(a)); self.eat(")")
+            if ty_of(a) not in WRAPFN or ty_of(b) != ty_of(a) or MARK in a[1] or MARK in b[1]:
+                raise Unsupported(".wrapping_sub on %s / %s" % (ty_of(a), ty_of(b)))
+            # the difference modulo 2^bits, computed in Z
+            return R("num", "(Z.to_N ((Z.of_N %s - Z.of_N %s) mod %d)%%Z)" % (self.n(a), self.n(b), 2 ** INT_BITS[ty_of(a)]), ty_of(a))
         raise Unsupported("method .%s" % meth)
 
     def bytes_of(self, a):
@@ -396,8 +471,21 @@ class P:
         if tok == "(":
             a = self.expr(ex); self.eat(")"); return a
         if tok == "if":
-            c = self.expr(); self.eat("{"); s = self.i; a = self.expr(ex); e_ = self.i; self.eat("}")
-            self.eat("else"); self.eat("{"); b = self.expr(ex or ty_of(a)); self.eat("}")
+            c = self.expr(); self.eat("{"); s = self.i
+            g0 = self.env.pre_mark() if self.typed else None
+            a = self.expr(ex); e_ = self.i; self.eat("}")
+            if self.typed:
+                self.env.pre_guard(g0, "negb %s" % self.b(c))
+            g1 = self.env.pre_mark() if self.typed else None
+            self.eat("else")
+            if self.typed and self.peek() == "if":
+                b = self.atom(ex or ty_of(a))                 # else if ..: the nested conditional
+            else:
+                self.eat("{"); b = self.expr(ex or ty_of(a)); self.eat("}")
+            if self.typed:
+                self.env.pre_guard(g1, self.b(c))
+            if self.typed and a[0] in ("bytes", "array") and b[0] in ("bytes", "array"):
+                return R("bytes", "(if %s then %s else %s)" % (self.b(c), self.bytes_of(a), self.bytes_of(b)))
             if a[0] != b[0]:
                 raise Unsupported("if branches of different kinds")
             if self.typed and a[0] == "num" and ty_of(a) is None and ty_of(b) is not None:
@@ -413,6 +501,14 @@ class P:
             return R("bytes", self.bytes_of(a))
         if self.typed and tok == "match":
             return self.match_(ex)
+        if self.typed and tok in ("true", "false"):
+            return R("bool", tok)
+        if self.typed and tok == "{":
+            a = self.expr(ex); self.eat("}")                 # a block that is a single expression
+            return a
+        if self.typed and self.env.rec and self.peek() == "{" and isinstance(tok, str) and tok.split("::")[-1] in self.env.ctx.structs \
+                and re.fullmatch(r"(?:[a-z_0-9]+::)*[A-Z][A-Za-z0-9_]*", tok):
+            return self.env.struct_literal(tok.split("::")[-1], self)
         if tok == "u64::MAX":
             return R("num", "18446744073709551615", "u64")
         if self.typed and tok in ("u8::MAX", "u16::MAX", "u32::MAX"):
@@ -453,7 +549,10 @@ class P:
 
     def match_(self, ex):
         """match X { INT => E, ..., _ => E }  ->  if X =? INT then E else ... else E"""
-        x = self.expr(); self.eat("{")
+        x = self.expr()
+        if x[0] == "dyn" and x.info[0] == "enum":
+            return self.env.match_enum(x, self, ex)
+        self.eat("{")
         arms, default = [], None
         while self.peek() != "}":
             pat = self.eat()
@@ -641,6 +740,34 @@ LETS = [
 #   | ^ & << >> / %, + and * on usize only, comparisons, && || !, if/else, match on integer patterns, `as uN`,
 #   .min .max .saturating_sub .len(), v[K] (K literal), v.get(K).copied().unwrap_or(D), o.unwrap_or(D).
 # Wrapping: `a << k` on uN is `uN (N.shiftl a k)`; a narrowing `x as uN` is `uN x`; widening casts leave the value.
+#
+# DATA-DEPENDENT FORMS (sample tables, containers, fragments):
+#   parameters `&[u32]` / `&[i32]` / `&[Struct]` / `Option<..>` / tuples: Gallina `list N` / `list Z` / `list record` / ..
+#   for x in SLICE { B.extend_from_slice(..x..); .. }        ->  B ++ flat_map (fun x => ..) SLICE   (appends only; lets
+#       inside the body are inlined; an assert_invariant! inside becomes `forallb (fun x => c) SLICE` in <name>_src_pre)
+#   for (a, b) in PAIRS { .. }                               ->  flat_map (fun e_ => ..fst e_..snd e_..) PAIRS
+#   for (i, x) in L.iter().enumerate() { .. }                ->  the same over `enumerate_from 0 L` when the body reads i
+#       (L[i + 1] is `nth (N.to_nat (i + 1)) L default`, with the bounds check recorded as a precondition)
+#   let mut V: Vec<(u32, T)> = Vec::new();
+#   for &x in SLICE { if let Some(last) = V.last_mut() { if C { last.0 += 1; continue; } } V.push((1, x)); }
+#       ->  V := fold_left (fun V x => match vec_last V with Some last => if C then vec_set_last V (u32 (fst last + 1), snd last)
+#                                      else V ++ [(1, x)] | None => V ++ [(1, x)] end) SLICE []
+#       (statement by statement: last_mut borrow, `+=` wrapping at the component's type, continue, push; helper
+#        definitions vec_last / vec_set_last / enumerate_from are emitted at the head of the builder section)
+#   i32 values (Z): `x.to_be_bytes()` is `be32 (i32_bits x)`, `==` is Z.eqb, `E as i32` is `i32_of_bits (u32 E)`,
+#       `a.wrapping_sub(b)` on uN is `Z.to_N ((Z.of_N a - Z.of_N b) mod 2^N)`
+#   + * - on sized integers: the exact value in N, and `fits the type` / `b <= a` recorded in <name>_src_pre
+#       (guarded by the conditions of the enclosing if-expressions); L.iter().map(|x| E).sum() is sumN (map ..)
+#   if C { E } else if D { F } else { G } of byte values; v.is_empty(); o.is_some(); o.and_then(|m| m.f.as_deref());
+#   o.unwrap_or_default(); o.unwrap_or_else(|| E); v.get(K).map(|b| E).unwrap_or(D)
+#   if let Some(PAT) = OPTION_VALUE { appends } [else { appends }]   ->  match O with Some PAT => .. | None => .. end
+#   match ENUM_VALUE { Enum::V(x) => E, .. }  (every variant of the Rust enum, constructors from table ENUMS)
+# RECORD MODE (a fourth element "rec" in BUILDERS): a struct parameter is a value of the model's record (table RECORDS:
+#   Rust struct -> (record, {field: projection}); field names and types are read from the Rust declaration, a field
+#   without an entry is a problem); `p.method()` is translated in place from the method's body (one expression);
+#   Type::new(..) and Type { f: E, ..Default::default() } become record terms `{| proj := .. |}`; a call of a builder
+#   that was translated with flattened parameters receives the projections; abstracted FUNCTIONS of a callee
+#   (`<callee>_fn`) are passed down from the caller, which gets the same parameter.
 
 RESERVED = set("len be16 be32 be64 u8 u16 u32 u64 build_box N app if then else let in fun match with end as at return "
                "forall exists Type Set Prop bytes byte zeros list nil cons fix cofix where mod".split())
@@ -650,14 +777,86 @@ RESERVED = set("len be16 be32 be64 u8 u16 u32 u64 build_box N app if then else l
 # OPAQUE_FN: the callee is a FUNCTION parameter (`<callee>_fn`) applied to the translated arguments;
 # OPAQUE: the callee takes a whole struct: the bytes it returns are a parameter (`<callee>_result`), arguments not read.
 OPAQUE_FN = {
+    "format_unix_timestamp": "format!() is out of reach; the six numeric fields it prints are tied by format_unix_timestamp_from_source_fields",
     "encode_language_code": "chars()/take(3)/collect over a &str is out of reach; its packing expression is tied by language_packing_source_agrees",
 }
+# result type of an OPAQUE_FN callee when it is not bytes (record mode only)
+OPAQUE_FN_RET = {"extract_av1_config": "Option<Av1Config>"}
+OPAQUE_FN["extract_av1_config"] = "the AV1 sequence-header parser (bit reader, loops); modelled by Model/Codec.v extract_av1_config"
 OPAQUE = {
     "build_hvcc_fmp4": "constructs a HevcConfig",
     "build_av1c_fmp4": "calls the AV1 sequence-header parser",
     "build_vpcc_fmp4": "if let over an Option",
     "build_stsd_fmp4": "if/else chain over Option::is_some()",
 }
+
+
+# RECORD MODE (builders flagged "rec" in BUILDERS): a parameter whose Rust type is one of these structs / enums is a
+# value of the MODEL's record / inductive type; `p.f` is the model projection given here.  The Rust field names and
+# types are still read from the struct declaration: a field that the source reads and that has no entry here is a
+# problem, as is an enum variant without an entry.  (Model/Boxes.v, Model/Codec.v, Model/Frag.v)
+RECORDS = {
+    "Mp4VideoTrack": ("video_track", {"width": "vt_width", "height": "vt_height"}),
+    "Mp4AudioTrack": ("audio_track", {"sample_rate": "at_sample_rate", "channels": "at_channels", "codec": "at_codec"}),
+    "SampleTables": ("sample_tables", {"durations": "st_durations", "sizes": "st_sizes", "keyframes": "st_keyframes",
+                                       "chunk_offsets": "st_chunk_offsets", "samples_per_chunk": "st_samples_per_chunk",
+                                       "cts_offsets": "st_cts_offsets", "has_bframes": "st_has_bframes"}),
+    "Metadata": ("metadata", {"title": "md_title", "creation_time": "md_creation_time", "language": "md_language"}),
+    "AvcConfig": ("avc_config", {"sps": "avc_sps", "pps": "avc_pps"}),
+    "HevcConfig": ("hevc_config", {"vps": "hevc_vps", "sps": "hevc_sps", "pps": "hevc_pps"}),
+    "Av1Config": ("av1_config", {"sequence_header": "av1_sequence_header", "seq_profile": "av1_seq_profile",
+                                 "seq_level_idx": "av1_seq_level_idx", "seq_tier": "av1_seq_tier",
+                                 "high_bitdepth": "av1_high_bitdepth", "twelve_bit": "av1_twelve_bit",
+                                 "monochrome": "av1_monochrome", "chroma_subsampling_x": "av1_subsampling_x",
+                                 "chroma_subsampling_y": "av1_subsampling_y",
+                                 "chroma_sample_position": "av1_chroma_sample_position"}),
+    "Vp9Config": ("vp9_config", {"width": "vp9_width", "height": "vp9_height", "profile": "vp9_profile",
+                                 "bit_depth": "vp9_bit_depth", "color_space": "vp9_color_space",
+                                 "transfer_function": "vp9_transfer_function",
+                                 "matrix_coefficients": "vp9_matrix_coefficients", "level": "vp9_level",
+                                 "full_range_flag": "vp9_full_range_flag"}),
+    "FragmentConfig": ("frag_config", {"width": "fc_width", "height": "fc_height", "timescale": "fc_timescale",
+                                       "fragment_duration_ms": "fc_fragment_duration_ms", "sps": "fc_sps",
+                                       "pps": "fc_pps", "vps": "fc_vps", "av1_sequence_header": "fc_av1",
+                                       "vp9_config": "fc_vp9"}),
+    "FragmentSample": ("frag_sample", {"pts": "fs_pts", "dts": "fs_dts", "data": "fs_data", "is_sync": "fs_sync"}),
+}
+# enum -> (model inductive, {variant: (model constructor, has payload)})
+ENUMS = {
+    "VideoConfig": ("video_config", {"Avc": "CfgAvc", "Hevc": "CfgHevc", "Av1": "CfgAv1", "Vp9": "CfgVp9"}),
+    "AudioCodec": ("audio_codec", {"Aac": "Aac", "Opus": "Opus", "None": "NoAudio"}),
+}
+
+
+RESERVED |= set(v[0] for v in RECORDS.values()) | set(v[0] for v in ENUMS.values())     # a variable never shadows a model type
+
+
+def coq_type(d):
+    """Gallina type of a type descriptor (Ctx.tydesc)"""
+    k = d[0]
+    if k == "int":
+        return "N"
+    if k == "sint":
+        return "Z"
+    if k == "bool":
+        return "bool"
+    if k in ("bytes", "str"):
+        return "list N"
+    if k == "list":
+        return "list (%s)" % coq_type(d[1])
+    if k == "option":
+        return "option (%s)" % coq_type(d[1])
+    if k == "tuple" and d[1]:
+        return "(%s)" % " * ".join(coq_type(x) for x in d[1])
+    if k == "struct":
+        if d[1] not in RECORDS:
+            raise Unsupported("struct %s has no entry in the RECORDS table" % d[1])
+        return RECORDS[d[1]][0]
+    if k == "enum":
+        if d[1] not in ENUMS:
+            raise Unsupported("enum %s has no entry in the ENUMS table" % d[1])
+        return ENUMS[d[1]][0]
+    raise Unsupported("type %s has no Gallina counterpart" % (d[1] if len(d) > 1 else k))
 
 
 def comment(text):
@@ -820,7 +1019,60 @@ class Ctx:
                 self.structs.setdefault(m.group(1), []).append((f, fields))
             for m in re.finditer(r"\bconst\s+([A-Z_0-9]+)\s*:\s*([a-z0-9]+)\s*=\s*([0-9A-Fa-fx_]+)\s*;", self.src[f]):
                 self.consts.setdefault(m.group(1), []).append((f, m.group(2), m.group(3)))
+        self.enums = {}         # name -> [(file, [(variant, payload type text or None)])]
+        for f in sorted(self.src):
+            for m in re.finditer(r"\benum\s+([A-Za-z_0-9]+)\s*\{([^{}]*)\}", self.src[f]):
+                variants = []
+                for vm in re.finditer(r"([A-Z][A-Za-z_0-9]*)\s*(?:\(([^()]*)\))?\s*(?:,|$)", re.sub(r"#\[[^\]]*\]", "", m.group(2)).strip()):
+                    variants.append((vm.group(1), vm.group(2).strip() if vm.group(2) else None))
+                self.enums.setdefault(m.group(1), []).append((f, variants))
         self.sigs = {}          # (file, fn) -> Sig
+
+    def enum_variants(self, name):
+        defs = self.enums.get(name, [])
+        if len(defs) != 1:
+            raise Unsupported("enum %s has %d definitions in the files read" % (name, len(defs)))
+        return defs[0][1]
+
+    def tydesc(self, ty):
+        """Rust type text -> descriptor: ("int", uN) ("sint", iN) ("bool",) ("bytes",) ("str",) ("list", D)
+        ("option", D) ("tuple", [D..]) ("struct", Name) ("enum", Name) ("other", text); references are transparent"""
+        t = ty.replace(" ", "")
+        while t.startswith("&"):
+            t = t[1:]
+        if t in INT_BITS:
+            return ("int", t)
+        if t in SIGNED:
+            return ("sint", t)
+        if t == "bool":
+            return ("bool",)
+        if t in ("str", "String"):
+            return ("str",)
+        if re.fullmatch(r"\[u8(;\d+)?\]|Vec<u8>", t):
+            return ("bytes",)
+        m = re.fullmatch(r"Option<(.*)>", t)
+        if m:
+            return ("option", self.tydesc(m.group(1)))
+        m = re.fullmatch(r"\[(.*)\]|Vec<(.*)>", t)
+        if m:
+            return ("list", self.tydesc(m.group(1) or m.group(2)))
+        if t.startswith("(") and t.endswith(")"):
+            parts, depth, cur = [], 0, ""
+            for ch in t[1:-1] + ",":
+                if ch == "," and depth == 0:
+                    if cur:
+                        parts.append(self.tydesc(cur))
+                    cur = ""
+                    continue
+                depth += {"(": 1, "<": 1, "[": 1, ")": -1, ">": -1, "]": -1}.get(ch, 0)
+                cur += ch
+            return ("tuple", parts)
+        m = re.fullmatch(r"(?:[a-z_0-9]+::)*([A-Z][A-Za-z0-9_]*)", t)
+        if m and m.group(1) in self.structs:
+            return ("struct", m.group(1))
+        if m and m.group(1) in self.enums:
+            return ("enum", m.group(1))
+        return ("other", t)
 
     def struct_fields(self, name):
         defs = self.structs.get(name.split("::")[-1], [])
@@ -872,8 +1124,10 @@ class State:
 
 
 class ByteBuilder:
-    def __init__(self, ctx, file, name, coq):
+    def __init__(self, ctx, file, name, coq, rec=False):
         self.ctx, self.file, self.name, self.coq = ctx, file, name, coq
+        self.rec = rec           # record mode: struct parameters are values of the model's records (RECORDS)
+        self.fresh = 0
         self.used = {}           # struct parameter -> set of fields / methods used
         self.opaque = []         # [(coq parameter name, callee, reason)]
         self.notes = []
@@ -893,6 +1147,357 @@ class ByteBuilder:
         if not p.done():
             raise Unsupported("cannot parse `%s` (stopped at %r)" % (show(toks), p.peek()))
         return r
+
+    # ---- record mode / dynamic values -------------------------------------------------------------------
+    def add_pre(self, cond, note):
+        if note not in self.notes:
+            self.notes.append(note)
+        if self.pre is not None and cond not in self.pre:
+            self.pre.append(cond)
+
+    def pre_mark(self):
+        return None if self.pre is None else len(self.pre)
+
+    def pre_guard(self, mark, unless):
+        """the preconditions recorded since `mark` are only required when the boolean `unless` is false"""
+        if mark is None or self.pre is None:
+            return
+        new = ["(%s || %s)" % (unless, c) for c in self.pre[mark:]]
+        del self.pre[mark:]
+        for c in new:
+            if c not in self.pre:
+                self.pre.append(c)
+
+    def default_term(self, d):
+        """a value of type d for the out-of-bounds case of [nth] (never reached under the recorded precondition)"""
+        k = d[0]
+        if k == "int":
+            return "0"
+        if k == "sint":
+            return "0%Z"
+        if k == "bool":
+            return "false"
+        if k in ("bytes", "str", "list"):
+            return "[]"
+        if k == "option":
+            return "None"
+        if k == "tuple":
+            return "(%s)" % ", ".join(self.default_term(x) for x in d[1])
+        if k == "struct" and d[1] in RECORDS:
+            return "{| %s |}" % "; ".join("%s := %s" % (RECORDS[d[1]][1][f], self.default_term(self.ctx.tydesc(t)))
+                                          for f, t in self.ctx.struct_fields(d[1]) if f in RECORDS[d[1]][1])
+        raise Unsupported("no default value for %s" % (d,))
+
+    def with_bound(self, binds, fn):
+        """run fn with extra variables in scope (closure parameters, match-bound names); nothing it computes may be
+        hoisted into a top-level let, and it may not record preconditions (they would mention the bound names)"""
+        saved_vars, saved_ns = dict(self.st.vars), self.noshare
+        npre = None if self.pre is None else len(self.pre)
+        self.st.vars.update(binds)
+        self.noshare = True
+        try:
+            r = fn()
+        finally:
+            self.st.vars.clear(); self.st.vars.update(saved_vars)
+            self.noshare = saved_ns
+        if npre is not None and self.pre is not None and len(self.pre) != npre:
+            raise Unsupported("an overflow / assertion precondition under a binder (closure or match arm)")
+        return r
+
+    def wrapv(self, d, text):
+        """the typed result for a Gallina term `text` of Rust type descriptor d"""
+        k = d[0]
+        if k == "int":
+            return R("num", text, d[1])
+        if k == "bool":
+            return R("bool", text)
+        if k in ("bytes", "str"):
+            return R("bytes", text)
+        if d == ("option", ("str",)):
+            return R("optstr", text)
+        if k == "struct":
+            coq_type(d)
+            return R("struct", text, info=d[1])
+        coq_type(d)
+        return R("dyn", text, info=d)
+
+    def bindvar(self, d, text):
+        """state entry for a variable of type d whose Gallina term is text"""
+        r = self.wrapv(d, text)
+        return ("struct", d[1], text) if r[0] == "struct" else ("val", r)
+
+    @staticmethod
+    def desc_of(a):
+        if a[0] == "num":
+            return ("int", ty_of(a))
+        if a[0] == "bool":
+            return ("bool",)
+        if a[0] in ("bytes", "array"):
+            return ("bytes",)
+        if a[0] == "optstr":
+            return ("option", ("str",))
+        if a[0] == "struct":
+            return ("struct", a.info)
+        if a[0] == "dyn":
+            return a.info
+        return ("other", a[0])
+
+    @staticmethod
+    def same_desc(x, y):
+        norm = lambda d: ("bytes",) if d in (("str",), ("list", ("int", "u8"))) else \
+            (d[0], norm(d[1])) if d[0] in ("option", "list") else \
+            ("tuple", [norm(e) for e in d[1]]) if d[0] == "tuple" else d
+        return norm(x) == norm(y)
+
+    def newname(self, base):
+        self.fresh += 1
+        return "%s_%d" % (base, self.fresh) if self.fresh > 1 else base
+
+    def pattern(self, toks, d):
+        """a Rust pattern against a value of type d -> (Gallina pattern text, {rust name: state entry})
+        forms: x, &x, ref x, _, (p, q), Some(p)"""
+        while toks and toks[0] in ("&", "ref", "mut"):
+            toks = toks[1:]
+        if len(toks) == 1 and toks[0] == "_":
+            return "_", {}
+        if len(toks) == 1 and isinstance(toks[0], str) and re.fullmatch(r"[a-z_][A-Za-z_0-9]*", toks[0]):
+            return coq_ident(toks[0]), {toks[0]: self.bindvar(d, coq_ident(toks[0]))}
+        if toks and toks[0] == "(" and match_close(toks, 0) == len(toks) - 1:
+            parts = self.tuple_parts(toks)
+            if d[0] != "tuple" or len(d[1]) != len(parts):
+                raise Unsupported("tuple pattern `%s` against a value of another shape" % show(toks))
+            texts, binds = [], {}
+            for pt, pd in zip(parts, d[1]):
+                t_, b_ = self.pattern(pt, pd)
+                texts.append(t_); binds.update(b_)
+            return "(%s)" % ", ".join(texts), binds
+        if len(toks) >= 4 and toks[:2] == ["Some", "("] and match_close(toks, 1) == len(toks) - 1:
+            if d[0] != "option":
+                raise Unsupported("pattern Some(..) against a value that is not an Option")
+            t_, b_ = self.pattern(toks[2:-1], d[1])
+            return "Some %s" % t_, b_
+        raise Unsupported("pattern: %s" % show(toks))
+
+    def dyn_method(self, a, meth, p):
+        d = a.info
+        if d[0] == "tuple" and re.fullmatch(r"\d+", meth):
+            if len(d[1]) != 2 or int(meth) > 1:
+                raise Unsupported("tuple index .%s on a tuple of %d components" % (meth, len(d[1])))
+            return self.wrapv(d[1][int(meth)], "(%s %s)" % (("fst", "snd")[int(meth)], a[1]))
+        if p.peek() != "(":
+            raise Unsupported("field .%s of a value of type %s" % (meth, d[0]))
+        p.eat("(")
+        if d[0] == "sint" and meth == "to_be_bytes":
+            p.eat(")")
+            if d[1] != "i32":
+                raise Unsupported("to_be_bytes() on a signed %s" % d[1])
+            # the model's two's-complement helper (Model/Base.v): the 32-bit pattern of the integer
+            return R("bytes", "(be32 (i32_bits %s))" % a[1])
+        if d[0] == "list":
+            if meth == "len":
+                p.eat(")"); return R("num", "(len %s)" % a[1], "usize")
+            if meth == "is_empty":
+                p.eat(")"); return R("bool", "(len %s =? 0)" % a[1])
+            if meth == "iter":
+                p.eat(")")
+                if p.peek() == "." and p.peek(1) == "map":
+                    # l.iter().map(|&d| d as uN).sum(): the sum of the elements (value-preserving cast only)
+                    for t in (".", "map", "(", "|"):
+                        p.eat(t)
+                    if p.peek() == "&":
+                        p.eat()
+                    v = p.eat(); p.eat("|")
+                    if not isinstance(v, str) or not re.fullmatch(r"[a-z_][A-Za-z_0-9]*", v):
+                        raise Unsupported("closure in .map() over %s" % a[1])
+                    body = self.with_bound({v: self.bindvar(d[1], coq_ident(v))}, lambda: p.expr())
+                    p.eat(")")
+                    for t in (".", "sum", "(", ")"):
+                        p.eat(t)
+                    if body[0] != "num" or ty_of(body) not in INT_BITS or MARK in body[1]:
+                        raise Unsupported(".map(|%s| ..).sum() whose closure does not return a typed integer" % v)
+                    what = a[1] if body[1] == coq_ident(v) else "(map (fun %s : %s => %s) %s)" % (coq_ident(v), coq_type(d[1]), body[1], a[1])
+                    self.add_pre("(sumN %s <=? %d)" % (what, 2 ** INT_BITS[ty_of(body)] - 1),
+                                 "precondition (with overflow checks the source panics otherwise; without, it wraps): the sum of %s fits %s" % (what, ty_of(body)))
+                    return R("num", "(sumN %s)" % what, ty_of(body))
+                return a
+        if d[0] == "option" and meth in ("clone", "as_deref", "as_ref"):
+            p.eat(")")
+            return a
+        if d[0] == "option" and d[1] == ("bytes",) and meth in ("unwrap_or_default", "unwrap_or"):
+            dflt = "[]"
+            if meth == "unwrap_or":
+                dflt = p.bytes_of(p.expr())
+            p.eat(")")
+            return R("bytes", "(match %s with Some v_ => v_ | None => %s end)" % (a[1], dflt))
+        if d[0] == "option" and meth == "unwrap_or_else":
+            p.eat("||")
+            dflt = p.expr()
+            p.eat(")")
+            if not self.same_desc(self.desc_of(dflt), d[1]):
+                raise Unsupported(".unwrap_or_else() whose closure returns %s, expected %s" % (self.desc_of(dflt), d[1]))
+            return self.wrapv(d[1], "(match %s with Some v_ => v_ | None => %s end)" % (a[1], p.bytes_of(dflt) if dflt[0] in ("bytes", "array") else dflt[1]))
+        if d[0] == "option":
+            if meth in ("is_some", "is_none"):
+                p.eat(")")
+                return R("bool", "(match %s with Some _ => %s | None => %s end)" % ((a[1],) + (("true", "false") if meth == "is_some" else ("false", "true"))))
+            if meth == "and_then":
+                p.eat("|"); v = p.eat(); p.eat("|")
+                if not isinstance(v, str) or not re.fullmatch(r"[a-z_][A-Za-z_0-9]*", v):
+                    raise Unsupported("closure parameter %r" % (v,))
+                body = self.with_bound({v: self.bindvar(d[1], coq_ident(v))}, lambda: p.expr())
+                p.eat(")")
+                bd = self.desc_of(body)
+                if bd[0] != "option":
+                    raise Unsupported(".and_then() whose closure does not return an Option")
+                return self.wrapv(bd, "(match %s with Some %s => %s | None => None end)" % (a[1], coq_ident(v), body[1]))
+        raise Unsupported("method .%s on a value of type %s" % (meth, d[0]))
+
+    def impl_fn(self, sname, fname):
+        """`fn fname` inside `impl sname { .. }` -> (params, return type, body)"""
+        defs = self.ctx.structs.get(sname, [])
+        if len(defs) != 1:
+            raise Unsupported("struct %s has %d definitions in the files read" % (sname, len(defs)))
+        src = self.ctx.src[defs[0][0]]
+        ms = list(re.finditer(r"\bimpl\s+%s\s*\{" % re.escape(sname), src))
+        if len(ms) != 1:
+            raise Unsupported("%d `impl %s` blocks in %s" % (len(ms), sname, defs[0][0]))
+        depth, e = 1, ms[0].end()
+        while depth:
+            if e >= len(src):
+                raise Unsupported("unbalanced braces in impl %s" % sname)
+            depth += {"{": 1, "}": -1}.get(src[e], 0)
+            e += 1
+        return fn_sig(src[ms[0].end():e - 1], fname)
+
+    def record_term(self, sname, values):
+        """{| proj := v; .. |} for a struct of the RECORDS table, every field given"""
+        if sname not in RECORDS:
+            raise Unsupported("struct %s has no entry in the RECORDS table" % sname)
+        parts = []
+        for fn_, fty in self.ctx.struct_fields(sname):
+            if fn_ not in RECORDS[sname][1]:
+                raise Unsupported("field %s.%s is missing from the RECORDS table" % (sname, fn_))
+            if fn_ not in values:
+                raise Unsupported("no value for field %s of %s" % (fn_, sname))
+            parts.append("%s := %s" % (RECORDS[sname][1][fn_], values[fn_]))
+        if len(values) != len(parts):
+            raise Unsupported("value for a field that %s does not have" % sname)
+        return R("struct", "{| %s |}" % "; ".join(parts), info=sname)
+
+    def struct_new(self, sname, p):
+        """Type::new(a, b, ..) with `fn new(x: T, ..) -> Self { Self { f, g: E, .. } }`: the model's record value"""
+        params, ret, body = self.impl_fn(sname, "new")
+        if ret != "Self":
+            raise Unsupported("%s::new does not return Self" % sname)
+        p.eat("(")
+        binds = {}
+        for pn, pt in params:
+            d = self.ctx.tydesc(pt)
+            a = p.expr(d[1] if d[0] == "int" else None)
+            if not self.same_desc(self.desc_of(a), d) or MARK in (a[1] or ""):
+                raise Unsupported("argument %s of %s::new has type %s, expected %s" % (pn, sname, self.desc_of(a), d))
+            binds[pn] = self.bindvar(d, p.bytes_of(a) if a[0] in ("bytes", "array") else a[1])
+            if p.peek() == ",":
+                p.eat()
+        p.eat(")")
+        toks = tokens(body)
+        if len(toks) < 3 or toks[0] != "Self" or toks[1] != "{" or match_close(toks, 1) != len(toks) - 1:
+            raise Unsupported("%s::new is not a single struct literal" % sname)
+        inner, i, values = toks[2:-1], 0, {}
+        ftypes = dict(self.ctx.struct_fields(sname))
+        saved, self.st = self.st, State(binds)
+        try:
+            while i < len(inner):
+                j = find0(inner, i, (",",))
+                j = len(inner) if j is None else j
+                item = inner[i:j]; i = j + 1
+                if not item or not isinstance(item[0], str) or item[0] not in ftypes:
+                    raise Unsupported("%s::new: field initialiser `%s`" % (sname, show(item)))
+                rhs = item[2:] if len(item) > 2 and item[1] == ":" else [item[0]] if len(item) == 1 else None
+                if rhs is None:
+                    raise Unsupported("%s::new: field initialiser `%s`" % (sname, show(item)))
+                d = self.ctx.tydesc(ftypes[item[0]])
+                values[item[0]] = self.tuple_value(rhs, d) if d[0] != "bytes" else P([], {}, env=self).bytes_of(self.parse(rhs))
+        finally:
+            self.st = saved
+        self.notes.append("%s::new(..): the struct literal of `fn new` in impl %s, as a record of the model" % (sname, sname))
+        return self.record_term(sname, values)
+
+    def struct_literal(self, sname, p):
+        """Type { f: E, .., ..Default::default() } in record mode: the model's record value"""
+        e = match_close(p.t, p.i)
+        inner, i = p.t[p.i + 1:e], 0
+        p.i = e + 1
+        ftypes, values, rest = dict(self.ctx.struct_fields(sname)), {}, False
+        while i < len(inner):
+            j = find0(inner, i, (",",))
+            j = len(inner) if j is None else j
+            item = inner[i:j]; i = j + 1
+            if item[:1] == [".."]:
+                if item[1:] not in (["Default::default", "(", ")"], ["%s::default" % sname, "(", ")"]):
+                    raise Unsupported("struct update syntax `%s`" % show(item))
+                rest = True
+                continue
+            if len(item) < 3 or item[1] != ":" or item[0] not in ftypes:
+                raise Unsupported("%s literal: field initialiser `%s`" % (sname, show(item)))
+            d = self.ctx.tydesc(ftypes[item[0]])
+            values[item[0]] = self.tuple_value(item[2:], d) if d[0] != "bytes" else p.bytes_of(self.parse(item[2:]))
+        if rest:
+            dflt = self.struct_default(sname)
+            for f, v in dflt.info.items():
+                if f not in values:
+                    if v[0] not in ("num", "bool", "bytes") or MARK in v[1]:
+                        raise Unsupported("default value of %s.%s" % (sname, f))
+                    values[f] = v[1]
+        return self.record_term(sname, values)
+
+    def match_enum(self, x, p, ex):
+        """match X { Enum::V(v) => E, Enum::W => E, .. }: every variant of the Rust enum, each mapped by ENUMS"""
+        ename = x.info[1]
+        if ename not in ENUMS:
+            raise Unsupported("enum %s has no entry in the ENUMS table" % ename)
+        variants = dict(self.ctx.enum_variants(ename))
+        p.eat("{")
+        arms, seen = [], []
+        while p.peek() != "}":
+            pat = p.eat()
+            if not isinstance(pat, str) or "::" not in pat or pat.split("::")[-2] != ename:
+                raise Unsupported("match arm pattern %r on a value of enum %s" % (pat, ename))
+            vname = pat.split("::")[-1]
+            if vname not in variants or vname in seen:
+                raise Unsupported("match arm %s: unknown or repeated variant" % pat)
+            if vname not in ENUMS[ename][1]:
+                raise Unsupported("variant %s::%s is missing from the ENUMS table" % (ename, vname))
+            seen.append(vname)
+            binds, cpat = {}, ENUMS[ename][1][vname]
+            if p.peek() == "(":
+                e = match_close(p.t, p.i)
+                inner = p.t[p.i + 1:e]; p.i = e + 1
+                if variants[vname] is None:
+                    raise Unsupported("variant %s has no payload" % pat)
+                t_, binds = self.pattern(inner, self.ctx.tydesc(variants[vname]))
+                cpat += " " + t_
+            elif variants[vname] is not None:
+                raise Unsupported("variant %s has a payload" % pat)
+            p.eat("=>")
+            r = self.with_bound(binds, lambda: p.expr(ex))
+            arms.append((cpat, r))
+            if p.peek() == ",":
+                p.eat()
+            elif p.peek() != "}":
+                raise Unsupported("match arm not followed by `,`")
+        p.eat("}")
+        if sorted(seen) != sorted(variants):
+            raise Unsupported("match on %s does not list every variant (%s missing)" % (ename, ", ".join(sorted(set(variants) - set(seen)))))
+        kinds = set(r[0] if r[0] != "array" else "bytes" for _, r in arms)
+        if len(kinds) != 1 or kinds - {"bytes", "num", "bool"}:
+            raise Unsupported("match arms of kinds %s" % sorted(kinds))
+        kind = kinds.pop()
+        texts = [p.bytes_of(r) if kind == "bytes" else r[1] for _, r in arms]
+        if any(MARK in t for t in texts):
+            raise Unsupported("match arm of unknown integer width")
+        return R(kind, "(match %s with %s end)" % (x[1], " | ".join("%s => %s" % (c, t) for (c, _), t in zip(arms, texts))),
+                 next((ty_of(r) for _, r in arms if ty_of(r)), None))
 
     def ident(self, name, ex):
         v = self.st.vars.get(name)
@@ -919,13 +1524,26 @@ class ByteBuilder:
         if v[0] == "buf":
             return self.share(name, R("bytes", self.join(v[1])))
         if v[0] == "struct":
-            return R("struct", name, info=v[1])
+            return R("struct", v[2] if len(v) > 2 else name, info=v[1])
+        if v[0] == "vec":
+            return self.share(name, R("dyn", v[2], info=v[1]))
+        if v[0] == "index":
+            raise Unsupported("loop index `%s` used in an expression" % name)
         if v[0] == "other":
             raise Unsupported("parameter `%s` of type %s used outside an OPAQUE call" % (name, v[1]))
         raise Unsupported("internal: variable kind %s" % v[0])
 
     def field(self, a, fname):
         pname, sname = a[1], a.info
+        if self.rec:
+            if sname not in RECORDS:
+                raise Unsupported("struct %s has no entry in the RECORDS table" % sname)
+            for fn_, fty in self.ctx.struct_fields(sname):
+                if fn_ == fname:
+                    if fname not in RECORDS[sname][1]:
+                        raise Unsupported("field %s.%s is missing from the RECORDS table" % (sname, fname))
+                    return self.wrapv(self.ctx.tydesc(fty), "(%s %s)" % (RECORDS[sname][1][fname], pname))
+            raise Unsupported("struct %s has no field %s" % (sname, fname))
         for fn_, fty in self.ctx.struct_fields(sname):
             if fn_ == fname:
                 kind, ty = self.ctx.classify(fty)
@@ -953,6 +1571,22 @@ class ByteBuilder:
             raise Unsupported("method %s.%s() returns %s" % (pname, meth, ms[0]))
         if any(f == meth for f, _ in self.ctx.struct_fields(sname)):
             raise Unsupported("%s is both a field and a method of %s" % (meth, sname))
+        if self.rec:
+            # record mode: the method body (one expression over self.<field>) is translated in place
+            _, ret, body = fn_sig(self.ctx.src[defs[0][0]], meth)
+            stmts = split_stmts(tokens(body))
+            if len(stmts) != 1 or stmts[0][0] != "tail":
+                raise Unsupported("method %s::%s is not a single expression" % (sname, meth))
+            saved = self.st
+            self.st = State({"self": ("struct", sname, pname)})
+            saved_ns, self.noshare = self.noshare, True
+            try:
+                r = self.parse(stmts[0][1], ty)
+            finally:
+                self.st, self.noshare = saved, saved_ns
+            if (kind == "int" and (r[0] != "num" or ty_of(r) != ty or MARK in r[1])) or (kind == "bool" and r[0] != "bool"):
+                raise Unsupported("body of %s::%s does not have its declared type %s" % (sname, meth, ms[0]))
+            return r
         coq = coq_ident("%s_%s" % (pname, meth))
         if meth + "()" not in self.methods.setdefault(pname, []):
             self.methods[pname].append(meth + "()")
@@ -1107,14 +1741,19 @@ class ByteBuilder:
                 if p.peek() == ",":
                     p.eat()
             p.eat(")")
-            pn, cty = "%s_fn" % base, " -> ".join(tys + ["list N"])
+            rd = self.ctx.tydesc(OPAQUE_FN_RET[base]) if base in OPAQUE_FN_RET else ("bytes",)
+            if rd != ("bytes",) and not self.rec:
+                raise Unsupported("call of %s outside record mode" % base)
+            pn, cty = "%s_fn" % base, " -> ".join(tys + [coq_type(rd)])
             prev = [o for o in self.opaque if o[0] == pn]
             if prev and prev[0][3] != cty:
                 raise Unsupported("%s called with different argument kinds" % base)
             if not prev:
                 self.opaque.append((pn, base, OPAQUE_FN[base], cty))
-            return R("bytes", "(%s)" % " ".join([pn] + args))
-        if base in OPAQUE:
+            return self.wrapv(rd, "(%s)" % " ".join([pn] + args))
+        if base == "new" and "::" in name and name.split("::")[-2] in self.ctx.structs and self.rec:
+            return self.struct_new(name.split("::")[-2], p)
+        if base in OPAQUE and (self.file, base) not in self.ctx.sigs:
             self.skip_args(p)
             pn = coq_ident("%s_result" % base)
             k = 2
@@ -1128,8 +1767,15 @@ class ByteBuilder:
             if len(cands) != 1:
                 raise Unsupported("call of untranslated function %s" % name)
             sig = cands[0]
-        if sig.opaque:
-            raise Unsupported("call of %s, whose translation has abstracted sub-terms (%s)" % (base, ", ".join(o[0] for o in sig.opaque)))
+        for o in sig.opaque:
+            # the callee's abstracted sub-terms become parameters of the caller too (same name, passed through)
+            if "->" not in o[3]:
+                raise Unsupported("call of %s, whose translation has an abstracted result (%s)" % (base, o[0]))
+            prev = [q for q in self.opaque if q[0] == o[0]]
+            if prev and prev[0][3] != o[3]:
+                raise Unsupported("abstracted function %s used at two types" % o[0])
+            if not prev:
+                self.opaque.append(o)
         p.eat("(")
         args = []
         for prm in sig.params:
@@ -1159,6 +1805,14 @@ class ByteBuilder:
                 for f in prm["fields"]:
                     x = self.struct_method(a, f[:-2]) if f.endswith("()") else self.field(a, f)
                     args.append(x[1])
+            elif prm["kind"] == "dyn":
+                if p.peek() == "None" and prm["desc"][0] == "option":
+                    p.eat(); args.append("None")
+                else:
+                    a = p.expr(prm["desc"][1] if prm["desc"][0] == "int" else None)
+                    if not self.same_desc(self.desc_of(a), prm["desc"]):
+                        raise Unsupported("argument %s of %s has type %s, expected %s" % (prm["name"], base, self.desc_of(a), prm["desc"]))
+                    args.append(p.bytes_of(a) if a[0] in ("bytes", "array") else a[1])
             else:                                               # a parameter the callee's translation does not use
                 j = find0(p.t, p.i, (",", ")"))
                 if j is None:
@@ -1167,17 +1821,18 @@ class ByteBuilder:
             if p.peek() == ",":
                 p.eat()
         p.eat(")")
+        args += [o[0] for o in sig.opaque]
         return R("bytes", "(%s)" % " ".join([sig.coq] + args) if args else sig.coq)
 
     # ---- sharing: a local that is read several times becomes a Gallina `let`, otherwise it is inlined ----
     def share(self, name, r):
         """the value of the Rust local `name` at this point: a placeholder, resolved by finish()"""
-        if r[0] not in ("num", "bool", "bytes") or MARK in r[1] or not re.search(r"[ ;]", r[1]) or self.noshare:
+        if r[0] not in ("num", "bool", "bytes", "dyn", "optstr", "struct") or MARK in r[1] or not re.search(r"[ ;]", r[1]) or self.noshare:
             return r
         key = (name, r[0], r[1])
         if key not in self.shared:
             self.shared[key] = "\u2039%d\u203a" % len(self.shared)
-        return R(r[0], self.shared[key], r.ty)
+        return R(r[0], self.shared[key], r.ty, info=r.info)
 
     def finish(self, result, taken):
         """-> ([(let name, kind, text)], result) with every placeholder resolved"""
@@ -1233,6 +1888,15 @@ class ByteBuilder:
         declared = "".join(t for t in toks[2:eq] if isinstance(t, str)) if eq != 1 else None
         rhs = toks[eq + 1:]
         if rhs[:3] == ["Vec::new", "(", ")"] and len(rhs) == 3:
+            d = self.ctx.tydesc(declared) if declared else ("bytes",)
+            if d[0] == "list":                                   # a vector of integers / tuples: a Gallina list value
+                if not mutable:
+                    raise Unsupported("immutable empty vector %s" % name)
+                coq_type(d)
+                self.st.vars[name] = ("vec", d, "[]")
+                return
+            if d != ("bytes",):
+                raise Unsupported("let %s: %s = Vec::new()" % (name, declared))
             self.st.vars[name] = ("buf", [])
             return
         if rhs[:2] == ["Vec::with_capacity", "("] and match_close(rhs, 1) == len(rhs) - 1:
@@ -1247,8 +1911,10 @@ class ByteBuilder:
         dty = declared if declared in INT_BITS else None
         if declared is not None and dty is None and self.ctx.classify(declared)[0] != "bytes":
             raise Unsupported("let %s: %s" % (name, declared))
-        r = self.value(rhs, dty)
-        if r[0] == "bytes":
+        r = self.parse(rhs, dty) if self.rec else self.value(rhs, dty)
+        if r[0] == "struct":
+            self.st.vars[name] = ("struct", r.info, self.share(name, r)[1])       # a record term: one Gallina let
+        elif r[0] in ("bytes", "dyn", "optstr"):
             self.st.vars[name] = ("val", r, "let")
         elif r[0] in ("array", "structval", "option"):
             self.st.vars[name] = ("val", r)
@@ -1335,7 +2001,223 @@ class ByteBuilder:
             return
         raise Unsupported("statement form: %s" % show(toks))
 
+    @staticmethod
+    def flat_tokens(stmts):
+        out = []
+        for s_ in stmts:
+            if s_[0] == "if":
+                out += ["if"] + list(s_[1]) + ["{"] + ByteBuilder.flat_tokens(s_[2]) + ["}"]
+                if s_[3] is not None:
+                    out += ["else", "{"] + ByteBuilder.flat_tokens(s_[3]) + ["}"]
+            elif s_[0] == "for":
+                out += ["for"] + list(s_[1]) + ["in"] + list(s_[2]) + ["{"] + ByteBuilder.flat_tokens(s_[3]) + ["}"]
+            else:
+                out += list(s_[1]) + [";"]
+        return out
+
+    def loop_list(self, it):
+        """the list a `for` iterates over, when it is a slice / vector value: (R, enumerate?) or None (older forms)"""
+        while it and it[0] == "&":
+            it = it[1:]
+        if ".." in it:
+            return None
+        enum = False
+        if it[-8:] == [".", "iter", "(", ")", ".", "enumerate", "(", ")"]:
+            it, enum = it[:-8], True
+        elif it[-4:] == [".", "iter", "(", ")"]:
+            it = it[:-4]
+        if len(it) == 1 and isinstance(it[0], str):
+            v = self.st.vars.get(it[0])
+            if v is not None and v[0] == "val" and v[1][0] == "array":
+                return None
+        if not it:
+            raise Unsupported("for without an iterator")
+        r = self.parse(it)
+        if r[0] == "bytes" or (r[0] == "dyn" and r.info[0] == "list"):
+            return r, enum
+        raise Unsupported("for over `%s`, which is not a slice, a vector or an array literal" % show(it))
+
+    def proj_binds(self, toks, d, text):
+        """bind the names of a (possibly nested tuple) pattern to projections of the Gallina term `text`"""
+        while toks and toks[0] in ("&", "ref", "mut"):
+            toks = toks[1:]
+        if len(toks) == 1 and toks[0] == "_":
+            return {}
+        if len(toks) == 1 and isinstance(toks[0], str) and re.fullmatch(r"[a-z_][A-Za-z_0-9]*", toks[0]):
+            return {toks[0]: self.bindvar(d, text)}
+        if toks and toks[0] == "(" and match_close(toks, 0) == len(toks) - 1:
+            parts = self.tuple_parts(toks)
+            if d[0] != "tuple" or len(d[1]) != len(parts) or len(parts) != 2:
+                raise Unsupported("tuple pattern `%s` against a value of another shape" % show(toks))
+            out = {}
+            for k, (pt, pd) in enumerate(zip(parts, d[1])):
+                out.update(self.proj_binds(pt, pd, "(%s %s)" % (("fst", "snd")[k], text)))
+            return out
+        raise Unsupported("for pattern: %s" % show(toks))
+
+    def do_for_list(self, pat, lst, enum, body, indexed=False):
+        ltext = lst[1]
+        edesc = lst.info[1] if lst[0] == "dyn" else ("int", "u8")
+        binds = {}
+        if enum and not indexed:
+            # first without the index (it is often only used in an assertion message); if the body reads it,
+            # again over [enumerate_from 0 L], the list of (index, element) pairs
+            nnotes = len(self.notes)                  # (the body runs on a forked state: a failed probe leaves no trace)
+            try:
+                return self.do_for_list(pat, lst, False, body, indexed="probe")
+            except Unsupported as e:
+                if "loop index" not in str(e):
+                    raise
+                del self.notes[nnotes:]
+            edesc = ("tuple", [("int", "usize"), edesc])
+            ltext = "(enumerate_from 0 %s)" % ltext
+            return self.do_for_list(pat, R("dyn", ltext, info=("list", edesc)), False, body, indexed=True)
+        if indexed == "probe":
+            enum = True
+        if enum:
+            parts = self.tuple_parts(pat) if pat and pat[0] == "(" else []
+            if len(parts) != 2 or len(parts[0]) != 1 or not isinstance(parts[0][0], str):
+                raise Unsupported("for pattern over .enumerate(): %s" % show(pat))
+            if parts[0][0] != "_":
+                binds[parts[0][0]] = ("index",)
+            pat = parts[1]
+        p0 = [t for t in pat if t not in ("&", "ref", "mut")]
+        simple = len(p0) == 1 and isinstance(p0[0], str) and re.fullmatch(r"[a-z_][A-Za-z_0-9]*", p0[0]) and p0[0] != "_"
+        var = coq_ident(p0[0]) if simple else self.newname("e_")
+        if var in self.st.vars or any(coq_ident(k) == var for k in self.st.vars):
+            var = self.newname(var + "_")
+        binds.update(self.proj_binds(pat, edesc, var))
+        flat = self.flat_tokens(body)
+        targets = [n for n, v in self.st.vars.items() if v[0] == "vec" and
+                   any(flat[k:k + 2] == [n, "."] and flat[k + 2] in ("push", "last_mut") for k in range(len(flat) - 2))]
+        if targets:
+            if len(targets) != 1 or enum:
+                raise Unsupported("loop that updates the vectors %s" % ", ".join(targets))
+            return self.do_fold(targets[0], var, edesc, ltext, binds, body)
+        base = self.st
+        st1 = base.fork(); st1.vars.update(binds)
+        saved_ns, saved_pre = self.noshare, self.pre
+        self.st, self.noshare, self.pre = st1, True, (None if saved_pre is None else [])
+        try:
+            r = self.run(body, False)
+        finally:
+            inner_pre = self.pre
+            self.st, self.noshare, self.pre = base, saved_ns, saved_pre
+        if r[0] == "ret":
+            raise Unsupported("return inside a loop")
+        for name, v in base.vars.items():
+            if v[0] == "vec" and st1.vars.get(name) != v:
+                raise Unsupported("vector %s is updated inside a loop" % name)
+            if v[0] != "buf":
+                continue
+            old, new = v[1], st1.vars[name][1]
+            if new[:len(old)] != old:
+                raise Unsupported("buffer %s is not only appended to inside a loop" % name)
+            if new[len(old):]:
+                # one iteration appends E(x): the loop appends E(x1) ++ E(x2) ++ ..
+                old.append("(flat_map (fun %s : %s => %s) %s)" % (var, coq_type(edesc), self.join(new[len(old):]), ltext))
+        if saved_pre is not None:
+            if inner_pre is None:
+                self.pre = None
+            elif inner_pre:
+                self.pre.append("(forallb (fun %s : %s => %s) %s)" % (var, coq_type(edesc), " && ".join(inner_pre), ltext))
+
+    def tuple_value(self, toks, d):
+        """a Rust tuple / scalar expression of type d as a Gallina term"""
+        if d[0] == "tuple":
+            parts = self.tuple_parts(toks)
+            if len(parts) != len(d[1]):
+                raise Unsupported("tuple `%s` of the wrong arity" % show(toks))
+            return "(%s)" % ", ".join(self.tuple_value(pt, pd) for pt, pd in zip(parts, d[1]))
+        r = self.parse(toks, d[1] if d[0] == "int" else None)
+        if not self.same_desc(self.desc_of(r), d) or MARK in r[1]:
+            raise Unsupported("value `%s` is not of type %s" % (show(toks), d))
+        return r[1]
+
+    def do_fold(self, V, var, edesc, ltext, binds, body):
+        """for x in L { .. V.last_mut() / V.push(..) / continue .. }: a left fold over L with the vector V as state"""
+        _, vd, init = self.st.vars[V]
+        acc = coq_ident(V)
+        base = self.st
+        st1 = base.fork(); st1.vars.update(binds)
+        saved_ns, npre = self.noshare, (None if self.pre is None else len(self.pre))
+        self.st, self.noshare = st1, True
+        try:
+            step = self.fold_body(list(body), V, vd, acc, None)
+        finally:
+            self.st, self.noshare = base, saved_ns
+        if npre is not None and (self.pre is None or len(self.pre) != npre):
+            raise Unsupported("precondition inside a fold")
+        self.st.vars[V] = ("vec", vd, "(fold_left (fun (%s : %s) (%s : %s) => %s) %s %s)" % (acc, coq_type(vd), var, coq_type(edesc), step, ltext, init))
+
+    def fold_body(self, stmts, V, vd, cur, last):
+        """the vector after running stmts on the vector `cur`; last: the element borrowed by last_mut(), if any"""
+        def close():
+            return cur if not last or not last["mod"] else "(vec_set_last %s (%s))" % (cur, ", ".join(last["comps"]))
+        if not stmts:
+            return close()
+        s_, rest = stmts[0], stmts[1:]
+        if s_[0] in ("expr", "tail") and list(s_[1]) == ["continue"]:
+            return close()
+        if s_[0] == "endborrow":
+            if last:
+                self.st.vars.pop(last["name"], None)
+            cur2 = close()
+            return self.fold_body(rest, V, vd, cur2, None)
+        if s_[0] == "expr" and s_[1][:4] == [V, ".", "push", "("] and match_close(s_[1], 3) == len(s_[1]) - 1:
+            if last:
+                raise Unsupported("push while the last element is borrowed")
+            item = self.tuple_value(s_[1][4:-1], vd[1])
+            return self.fold_body(rest, V, vd, "(%s ++ [%s])" % (cur, item), None)
+        t = s_[1] if s_[0] != "endborrow" else []
+        if s_[0] == "expr" and last and len(t) > 5 and t[0] == last["name"] and t[1] == "." and isinstance(t[2], str) \
+                and re.fullmatch(r"\d+", t[2]) and t[3:5] == ["+", "="]:
+            k = int(t[2])
+            if k >= len(last["descs"]) or last["descs"][k][0] != "int" or last["descs"][k][1] not in WRAPFN:
+                raise Unsupported("`+=` on component %d of %s" % (k, last["name"]))
+            ty = last["descs"][k][1]
+            rhs = self.parse(t[5:], ty)
+            if rhs[0] != "num" or ty_of(rhs) != ty or MARK in rhs[1]:
+                raise Unsupported("right-hand side of `+=`: %s" % show(t[5:]))
+            comps = list(last["comps"])
+            comps[k] = "(%s (%s + %s))" % (WRAPFN[ty], comps[k], rhs[1])       # wrapping add at the component's type
+            last2 = dict(last, comps=comps, mod=True)
+            self.st.vars[last["name"]] = ("val", R("dyn", "(%s)" % ", ".join(comps), info=("tuple", last["descs"])))
+            return self.fold_body(rest, V, vd, cur, last2)
+        if s_[0] == "if" and t[:1] == ["let"]:
+            if last:
+                raise Unsupported("nested borrow of the last element")
+            if len(t) != 11 or t[1:3] != ["Some", "("] or t[4:] != [")", "=", V, ".", "last_mut", "(", ")"] \
+                    or not isinstance(t[3], str) or not re.fullmatch(r"[a-z_][A-Za-z_0-9]*", t[3]):
+                raise Unsupported("if let in a fold: %s" % show(t))
+            if vd[1][0] != "tuple" or len(vd[1][1]) != 2:
+                raise Unsupported("last_mut() on a vector whose elements are not pairs")
+            g = coq_ident(t[3])
+            lastn = dict(name=t[3], comps=["(fst %s)" % g, "(snd %s)" % g], descs=vd[1][1], mod=False)
+            saved = dict(self.st.vars)
+            self.st.vars[t[3]] = ("val", R("dyn", g, info=vd[1]))
+            try:
+                some = self.fold_body(list(s_[2]) + [("endborrow",)] + rest, V, vd, cur, lastn)
+            finally:
+                self.st.vars.clear(); self.st.vars.update(saved)
+            none = self.fold_body(list(s_[3] or []) + rest, V, vd, cur, None)
+            return "(match vec_last %s with Some %s => %s | None => %s end)" % (cur, g, some, none)
+        if s_[0] == "if":
+            c = self.parse(t)
+            if c[0] != "bool":
+                raise Unsupported("if condition is not boolean: %s" % show(t))
+            saved = dict(self.st.vars)
+            a = self.fold_body(list(s_[2]) + rest, V, vd, cur, last)
+            self.st.vars.clear(); self.st.vars.update(saved)
+            b = self.fold_body(list(s_[3] or []) + rest, V, vd, cur, last)
+            self.st.vars.clear(); self.st.vars.update(saved)
+            return "(if %s then %s else %s)" % (c[1], a, b)
+        raise Unsupported("statement in a fold: %s" % show(t))
+
     def do_for(self, pat, it, body):
+        ll = self.loop_list(it)
+        if ll is not None:
+            return self.do_for_list(pat, ll[0], ll[1], body)
         if len(pat) != 1 or not isinstance(pat[0], str) or not re.fullmatch(r"_|[a-z_][A-Za-z_0-9]*", pat[0]):
             raise Unsupported("for pattern: %s" % show(pat))
         if len(it) == 3 and it[1] == ".." and all(isinstance(x, str) and re.fullmatch(r"\d+", x) for x in (it[0], it[2])):
@@ -1373,6 +2255,45 @@ class ByteBuilder:
                 else:
                     self.st.vars[pat[0]] = saved
 
+    def dyn_if_let(self, pat, o, then, els, top):
+        """if let Some(PAT) = O { A } [else { B }] with O an Option VALUE (parameter / record field): appends only,
+        each buffer gets `match O with Some PAT => A | None => B end`"""
+        d = self.desc_of(o)
+        if d[0] != "option":
+            raise Unsupported("if let over a value that is not an Option: %s" % o[1])
+        gpat, binds = self.pattern(pat, d)
+        if not gpat.startswith("Some "):
+            raise Unsupported("if let pattern: %s" % show(pat))
+        base = self.st
+        saved_ns, saved_pre = self.noshare, self.pre
+        outs = []
+        for block, extra in ((then, binds), (els or [], {})):
+            st_ = base.fork(); st_.vars.update(extra)
+            self.st, self.noshare, self.pre = st_, True, (None if saved_pre is None else [])
+            try:
+                r = self.run(block, False)
+            finally:
+                inner = self.pre
+                self.st, self.noshare, self.pre = base, saved_ns, saved_pre
+            if r[0] == "ret":
+                raise Unsupported("return inside if let")
+            outs.append((st_, inner))
+        for name, v in base.vars.items():
+            if v[0] == "vec" and any(st_.vars.get(name) != v for st_, _ in outs):
+                raise Unsupported("vector %s is updated inside an if let" % name)
+            if v[0] != "buf":
+                continue
+            old, n1, n2 = v[1], outs[0][0].vars[name][1], outs[1][0].vars[name][1]
+            if n1[:len(old)] != old or n2[:len(old)] != old:
+                raise Unsupported("buffer %s is not only appended to inside an if let" % name)
+            if n1[len(old):] or n2[len(old):]:
+                old.append("(match %s with %s => %s | None => %s end)" % (o[1], gpat, self.join(n1[len(old):]), self.join(n2[len(old):])))
+        if saved_pre is not None:
+            if outs[0][1] is None or outs[1][1] is None:
+                self.pre = None
+            elif outs[0][1] or outs[1][1]:
+                self.pre.append("(match %s with %s => %s | None => %s end)" % (o[1], gpat, " && ".join(outs[0][1]) or "true", " && ".join(outs[1][1]) or "true"))
+
     def tail_bytes(self, toks):
         r = self.value(toks)
         return P([], {}, env=self).bytes_of(r)
@@ -1397,11 +2318,15 @@ class ByteBuilder:
             elif s[0] == "if" and s[1][:1] == ["let"]:
                 # if let Some(x) = [&]E { A } else { B } with E an Option known statically (a field of a struct value)
                 t = s[1]
+                eq = find0(t, 1, ("=",))
+                if eq is None or eq < 2 or eq + 1 >= len(t):
+                    raise Unsupported("if let pattern: %s" % show(t))
+                o = self.parse(t[eq + 1:])
+                if o[0] != "option":
+                    self.dyn_if_let(t[1:eq], o, s[2], s[3], top)
+                    continue
                 if len(t) < 7 or t[1:3] != ["Some", "("] or t[4:6] != [")", "="] or not isinstance(t[3], str) or not re.fullmatch(r"[a-z_][A-Za-z_0-9]*", t[3]):
                     raise Unsupported("if let pattern: %s" % show(t))
-                o = self.parse(t[6:])
-                if o[0] != "option":
-                    raise Unsupported("if let over a value that is not a statically known Option: %s" % show(t[6:]))
                 if o.info is None:
                     block = s[3] or []
                 else:
@@ -1467,10 +2392,18 @@ class ByteBuilder:
                 vars_[pn] = ("val", R(kind, coq_ident(pn)))
             elif kind == "str":
                 vars_[pn] = ("val", R("bytes", coq_ident(pn)))
-            elif kind == "struct":
+            elif kind == "struct" and not self.rec:
                 vars_[pn] = ("struct", ty)
             else:
-                vars_[pn] = ("other", pt)
+                # lists of integers / pairs, options, tuples; in record mode also structs and enums (model types)
+                desc = self.ctx.tydesc(pt)
+                try:
+                    coq_type(desc)
+                    plist[-1].update(kind="dyn", desc=desc)
+                    vars_[pn] = self.bindvar(desc, coq_ident(pn))
+                except Unsupported:
+                    plist[-1].update(kind="other")
+                    vars_[pn] = ("other", pt)
         self.st = State(vars_)
         r = self.run(split_stmts(tokens(body)), True)
         if r[0] != "ret":
@@ -1487,6 +2420,8 @@ class ByteBuilder:
                 binders.append("(%s : list N)" % coq_ident(prm["name"]))
             elif prm["kind"] == "optstr":
                 binders.append("(%s : option (list N))" % coq_ident(prm["name"]))
+            elif prm["kind"] == "dyn":
+                binders.append("(%s : %s)" % (coq_ident(prm["name"]), coq_type(prm["desc"])))
             elif prm["kind"] == "struct":
                 for fn_, fty in self.ctx.struct_fields(prm["ty"]):          # declaration order of the struct
                     if fn_ in self.used.get(prm["name"], ()):
@@ -1505,8 +2440,12 @@ class ByteBuilder:
         for pn, callee, why, cty in self.opaque:
             text += comment("NOT TRANSLATED: %s is the parameter %s (%s)" % (
                 "the function %s" % callee if "->" in cty else "the value returned by the call of %s" % callee, pn, why))
+        def inline(t):                                            # locals are inlined in comments and in <name>_pre
+            for (name_, kind_, text_), ph in reversed(list(self.shared.items())):
+                t = t.replace(ph, text_)
+            return t
         for n_ in self.notes:
-            text += comment(n_)
+            text += comment(inline(n_))
         lets, result = self.finish(r[1], set(names) | RESERVED)
         body_text = result[1:-1] if result.startswith("(") and match_paren_whole(result) else result
         text += "Definition %s%s : list N :=\n" % (self.coq, "".join(" " + b for b in binders))
@@ -1514,9 +2453,7 @@ class ByteBuilder:
             text += "  let %s := %s in\n" % (n_, t[1:-1] if t.startswith("(") and match_paren_whole(t) else t)
         text += "  %s.\n" % body_text
         if self.pre:
-            pre = " && ".join(self.pre)
-            for (name_, kind_, text_), ph in reversed(list(self.shared.items())):     # locals are inlined here
-                pre = pre.replace(ph, text_)
+            pre = inline(" && ".join(self.pre))
             words = set(re.findall(r"[A-Za-z_][A-Za-z_0-9']*", pre))
             text += "Definition %s_pre%s : bool :=\n  %s.\n" % (
                 self.coq, "".join(" " + b for b in binders if b.split()[0][1:] in words), pre)   # only the parameters it mentions
@@ -1589,8 +2526,48 @@ BUILDERS = [
     (FRAG, "build_mfhd", "build_mfhd_src"),
     (FRAG, "build_tfhd", "build_tfhd_src"),
     (FRAG, "build_tfdt", "build_tfdt_src"),
+    # sample tables with data-dependent loops
+    (MP4, "build_stsz_box", "build_stsz_box_src"),
+    (MP4, "build_stco_box", "build_stco_box_src"),
+    (MP4, "build_stss_box", "build_stss_box_src"),
+    (MP4, "build_stts_box", "build_stts_box_src"),
+    (MP4, "build_ctts_box", "build_ctts_box_src"),
+    # containers, in record mode: struct parameters are the model's records (table RECORDS)
+    (MP4, "build_stsd_box", "build_stsd_box_src", "rec"),
+    (MP4, "build_audio_stsd_box", "build_audio_stsd_box_src", "rec"),
+    (MP4, "build_stbl_box", "build_stbl_box_src", "rec"),
+    (MP4, "build_audio_stbl_box", "build_audio_stbl_box_src", "rec"),
+    (MP4, "build_minf_box", "build_minf_box_src", "rec"),
+    (MP4, "build_audio_minf_box", "build_audio_minf_box_src", "rec"),
+    (MP4, "build_mdia_box", "build_mdia_box_src", "rec"),
+    (MP4, "build_audio_mdia_box", "build_audio_mdia_box_src", "rec"),
+    (MP4, "build_trak_box", "build_trak_box_src", "rec"),
+    (MP4, "build_audio_trak_box", "build_audio_trak_box_src", "rec"),
+    (MP4, "build_ilst_string_item", "build_ilst_string_item_src", "rec"),
+    (MP4, "build_udta_box", "build_udta_box_src", "rec"),
+    (MP4, "build_moov_box", "build_moov_box_src", "rec"),
+    # fragmented init segment, record mode (FragmentConfig is the model's frag_config); the three sample entries that
+    # were translated above with their configuration record as a parameter are translated again, now calling it
+    (FRAG, "build_vpcc_fmp4", "build_vpcc_fmp4_src", "rec"),
+    (FRAG, "build_hvcc_fmp4", "build_hvcc_fmp4_src", "rec"),
+    (FRAG, "build_av1c_fmp4", "build_av1c_fmp4_src", "rec"),
+    (FRAG, "build_hvc1_fmp4", "build_hvc1_fmp4_full_src", "rec"),
+    (FRAG, "build_av01_fmp4", "build_av01_fmp4_full_src", "rec"),
+    (FRAG, "build_vp09_fmp4", "build_vp09_fmp4_full_src", "rec"),
+    (FRAG, "build_stsd_fmp4", "build_stsd_fmp4_src", "rec"),
+    (FRAG, "build_stbl_fmp4", "build_stbl_fmp4_full_src", "rec"),
+    (FRAG, "build_minf_fmp4", "build_minf_fmp4_src", "rec"),
+    (FRAG, "build_mdia_fmp4", "build_mdia_fmp4_src", "rec"),
+    (FRAG, "build_trak_fmp4", "build_trak_fmp4_src", "rec"),
+    (FRAG, "build_moov_fmp4", "build_moov_fmp4_src", "rec"),
+    # media segment
+    (FRAG, "build_trun", "build_trun_src", "rec"),
+    (FRAG, "build_traf", "build_traf_src", "rec"),
+    (FRAG, "build_moof_with_offset", "build_moof_with_offset_src", "rec"),
+    (FRAG, "build_moof", "build_moof_src", "rec"),
+    (FRAG, "build_media_segment", "build_media_segment_src", "rec"),
 ]
-SOURCE_FILES = [MP4, FRAG, "src/codec/opus.rs", "src/codec/vp9.rs", "src/codec/av1.rs", "src/codec/h264.rs", "src/codec/h265.rs"]
+SOURCE_FILES = [MP4, FRAG, "src/api.rs", "src/codec/opus.rs", "src/codec/vp9.rs", "src/codec/av1.rs", "src/codec/h264.rs", "src/codec/h265.rs"]
 
 
 def generate_builders(repo):
@@ -1598,10 +2575,17 @@ def generate_builders(repo):
     ctx = Ctx(repo, SOURCE_FILES)
     problems = list(ctx.problems)
     text = ("\n(* ---- byte builders: one term per statement, widths taken from the Rust types in the source ---- *)\n"
-            "From Muxide Require Import Model.Base Model.Boxes.\nOpen Scope N_scope.\n\n")
-    for f, fn, coq in BUILDERS:
+            "From Muxide Require Import Model.Base Model.Codec Model.Boxes Model.Frag.\nOpen Scope N_scope.\n\n"
+            "(* Vec::last_mut() and the assignment through the reference it returns *)\n"
+            "Definition vec_last {A} (v : list A) : option A := match rev v with x :: _ => Some x | [] => None end.\n"
+            "Definition vec_set_last {A} (v : list A) (x : A) : list A := removelast v ++ [x].\n"
+            "(* l.iter().enumerate(): the elements paired with their index *)\n"
+            "Fixpoint enumerate_from {A} (i : N) (l : list A) : list (N * A) :=\n"
+            "  match l with [] => [] | x :: t => (i, x) :: enumerate_from (i + 1) t end.\n\n")
+    for entry in BUILDERS:
+        f, fn, coq = entry[:3]
         try:
-            t_, sig = ByteBuilder(ctx, f, fn, coq).translate()
+            t_, sig = ByteBuilder(ctx, f, fn, coq, rec="rec" in entry[3:]).translate()
             ctx.sigs[(f, fn)] = sig
             text += t_ + "\n"
         except Unsupported as e:
